@@ -169,7 +169,7 @@ func runC04On(c *Ctx, r *Report, pkgRel, typeName, ctorName string, control bool
 		an.wraps = nil
 		var calls []c04Call
 		an.onCall = func(f *Frame, ci ssa.CallInstruction, callee *ssa.Function, args []AV) {
-			calls = append(calls, c04Call{f: f, callee: callee, args: args, state: f.cur, pos: ci.Pos()})
+			calls = append(calls, c04Call{f: f, instr: ci, callee: callee, args: args, state: f.cur, pos: ci.Pos()})
 		}
 		fr := an.newFrame(m, nil, []AV{recvV})
 		fr.run(cst)
@@ -222,6 +222,7 @@ func runC04On(c *Ctx, r *Report, pkgRel, typeName, ctorName string, control bool
 
 type c04Call struct {
 	f      *Frame
+	instr  ssa.CallInstruction
 	callee *ssa.Function
 	args   []AV
 	state  DNF
@@ -535,15 +536,123 @@ func c04Accessor(c *Ctx, r *Report, an *Analysis, fr *Frame, m *ssa.Function, ca
 		if little {
 			wantBit = 1
 		}
-		if cl.state.entails(atomEQ(bit, affConst(wantBit))) {
-			r.ok("R4.3", id, fmt.Sprintf("binary.%s decode is reached exactly when the LittleEndian flag of the order in force is %d", map[bool]string{true: "LittleEndian", false: "BigEndian"}[little], wantBit), pos, true)
+		tied := cl.state.entails(atomEQ(bit, affConst(wantBit)))
+		if !tied {
+			// `u := BigEndian(b); if little { u = LittleEndian(b) }`: the decode runs unconditionally
+			// but its result is only used through phi edges taken under the matching flag value
+			if v, isV := cl.instr.(ssa.Value); isV && v.Referrers() != nil {
+				uses, okUses := 0, true
+				for _, rf := range *v.Referrers() {
+					switch u := rf.(type) {
+					case *ssa.DebugRef:
+					case *ssa.Phi:
+						for k, e := range u.Edges {
+							if e != v {
+								continue
+							}
+							uses++
+							st := fr.edge[[2]int{u.Block().Preds[k].Index, u.Block().Index}]
+							if len(st) > 0 && !st.entails(atomEQ(bit, affConst(wantBit))) {
+								okUses = false
+							}
+						}
+					default:
+						okUses = false
+					}
+				}
+				tied = okUses && uses > 0
+			}
+		}
+		if tied {
+			r.ok("R4.3", id, fmt.Sprintf("the binary.%s decode is used exactly when the LittleEndian flag of the order in force is %d", map[bool]string{true: "LittleEndian", false: "BigEndian"}[little], wantBit), pos, true)
 		} else {
 			r.fail("R4.3", id, fmt.Sprintf("binary.%s decode is not tied to the LittleEndian flag of the order in force", map[bool]string{true: "LittleEndian", false: "BigEndian"}[little]), pos,
 				"state: "+truncate(cl.state.String(), 300), fmt.Sprintf("endianness:little=%v", little))
 		}
 	}
+	if nGetter == 1 && nDecode == 0 && want <= 4 {
+		// hand-written composition of the bytes (shifts and ORs): decided on the value returned
+		c04Composed(c, r, fr, m, calls, want, defOrder, usedOrder)
+		return
+	}
 	if nGetter != 1 || nDecode != 2 {
 		r.fail("R4.3", id, fmt.Sprintf("expected one getter call and a little/big decode pair, found %d getter call(s), %d decode call(s)", nGetter, nDecode), c.pos(m.Pos()), "", fmt.Sprintf("shape:%d/%d", nGetter, nDecode))
+	}
+}
+
+// c04Composed: R4.3 for accessors that compose the value from the getter's bytes by hand. On
+// every success return the unsigned integer behind the result equals the little-endian
+// combination of the getter's bytes where the LittleEndian flag of the order in force is set and
+// the big-endian combination where it is clear.
+func c04Composed(c *Ctx, r *Report, fr *Frame, m *ssa.Function, calls []c04Call, want int64, defOrder, usedOrder *Aff) {
+	id := fnID(m)
+	var gcall ssa.Value
+	for _, cl := range calls {
+		if cl.f == fr && isRawGetter(cl.callee) && c.inModule(cl.callee) {
+			gcall, _ = cl.instr.(ssa.Value)
+		}
+	}
+	tup, ok := fr.val(gcall).(ATuple)
+	if gcall == nil || !ok || len(tup) == 0 {
+		r.undecided("R4.3", id, "getter result not found for a hand-composed accessor", c.pos(m.Pos()))
+		return
+	}
+	gs, ok := tup[0].(ASlice)
+	if !ok {
+		r.undecided("R4.3", id, "getter result is not a byte slice", c.pos(m.Pos()))
+		return
+	}
+	ord := usedOrder
+	if ord == nil {
+		ord = defOrder
+	}
+	bit := fr.modAff(affSym(fr.divSym(*ord, 2)), 2)
+	okAll, n := true, 0
+	detail := ""
+	for _, rs := range fr.returns {
+		if len(rs.state) == 0 {
+			continue
+		}
+		if nf := fr.nilness(rs.vals[len(rs.vals)-1]); !(nf.kind == fConst && nf.b) {
+			continue
+		}
+		// the unsigned integer behind the returned value
+		v := rs.instr.Results[0]
+		for {
+			if cv, ok := v.(*ssa.Convert); ok {
+				v = cv.X
+				continue
+			}
+			break
+		}
+		u, isI := fr.val(v).(AInt)
+		if !isI {
+			okAll = false
+			detail = "returned value is not an integer composition"
+			continue
+		}
+		for _, cj := range rs.state {
+			if infeasible(cj) {
+				continue
+			}
+			n++
+			gsc := canonicalSlice(cj, gs, 0)
+			be := fr.frameBytes(gsc, affConst(0), int(want), true)
+			le := fr.frameBytes(gsc, affConst(0), int(want), false)
+			uu := fr.useIn(u, DNF{cj}, "composed value")
+			switch {
+			case cj.entails(atomEQ(bit, affConst(1))) && cj.entails(atomEQ(uu, le)):
+			case cj.entails(atomEQ(bit, affConst(0))) && cj.entails(atomEQ(uu, be)):
+			default:
+				okAll = false
+				detail = fmt.Sprintf("value %s is neither the little-endian combination under the flag nor the big-endian one without it", uu.String())
+			}
+		}
+	}
+	if okAll && n > 0 {
+		r.ok("R4.3", id, fmt.Sprintf("the %d bytes are composed little-endian exactly when the LittleEndian flag of the order in force is set, big-endian otherwise (decided on the returned value)", want), c.pos(m.Pos()), true)
+	} else {
+		r.fail("R4.3", id, "the hand-composed value does not follow the LittleEndian flag of the order in force", c.pos(m.Pos()), detail, "endianness:composed")
 	}
 }
 
